@@ -6,7 +6,7 @@
    Validated on every run: the REAL sterile() and the REAL generated
    FastSyncGroup program against `sterile` / `activate`, the REAL dispatcher
    bytecode against `dispatch` (C22's check). *)
-From Verif Require Import Ecat.Dispatch Ecat.Dispatch_proofs.
+From Verif Require Import Ecat.Dispatch Ecat.Dispatch_proofs Ecat.UserLoop Ecat.UserLoop_proofs.
 
 (* output disabled (wkc_errors = 0): the program leaves the frame as it is *)
 Theorem C21_disabled_untouched : forall l f, activate l f 0 = (f, 0).
@@ -49,3 +49,24 @@ Example C21_nonvacuous : ginv {| counter := 1; flight := [] |} /\
   snd (gstep (fold_left (fun st e => fst (gstep st e)) [Inject; Inject; Deliver 0%nat] {| counter := 1; flight := [] |}) (Deliver 1%nat))
   = Some (KTail, false).
 Proof. split; [split; [cbn; lia|constructor]|vm_compute; reflexivity]. Qed.
+
+(* ---- the user-space half (Ecat/UserLoop.v: FastSyncGroup.run / SyncGroupBase.run / FastSyncGroup.update_devices).
+   Whatever comes back from the bus - sterile frames, activated frames, nothing at all (timeout and re-send), in any order and
+   for any number of cycles - every cyclic frame the loop hands to the socket is the sterile frame: the command byte of every
+   write datagram is NOP. *)
+Theorem C21_user_space_sends_sterile : forall l full evs f st w c e,
+  In f (u_sent (uloop (sterile l full) evs)) -> In (st, w, c, e) l -> (st + 14 < length full)%nat ->
+  byte_at f (st + 14) = 0.
+Proof. exact user_space_frames_disabled. Qed.
+Print Assumptions C21_user_space_sends_sterile.
+
+Theorem C21_user_loop_invariant : forall asm evs, u_data (uloop asm evs) = asm /\ Forall (eq asm) (u_sent (uloop asm evs)).
+Proof. exact uloop_sends_asm. Qed.
+Print Assumptions C21_user_loop_invariant.
+
+Example C21_user_loop_nonvacuous :
+  let full := repeat 6 40 in let l := [(2%nat, 20%nat, 5, 1)] in
+  let act := set_byte (set_byte full 16 5) INDEX0 3 in
+  let s := uloop (sterile l full) [URecv act; UTimeout; URecv full; UTimeout] in
+  length (u_sent s) = 7%nat /\ u_cur s = Some act /\ byte_at act 16 = 5 /\ Forall (fun f => byte_at f 16 = 0) (u_sent s).
+Proof. vm_compute. split; [reflexivity|]. split; [reflexivity|]. split; [reflexivity|]. repeat (constructor; [reflexivity|]). constructor. Qed.
